@@ -336,3 +336,65 @@ def path_conditions(fn, ev, IN, b, ef=None):
             rels.extend(relational(f))
         out.append((p, rels))
     return out
+
+
+LOG_MARKERS = ("log::max_level", "log::STATIC_MAX_LEVEL", "log::Level", "log::LevelFilter", "__private_api")
+
+
+def _is_log_term(t):
+    return values.contains(t, lambda x: isinstance(x, tuple) and x and ((x[0] == "call" and any(m in x[1] for m in LOG_MARKERS)) or
+                                                                         (x[0] in ("agg", "enum", "static") and any(m in str(x[1]) for m in LOG_MARKERS))))
+
+
+def arm_entry(fn, ev, b):
+    """The block at which the branch arm containing b begins: walks back over straight-line code and over the diamonds that `log` macros
+    expand to (`if level <= max_level() { .. }`), so that the guard of an arm is the program's own condition and not a logging check."""
+    cur = b
+    for _ in range(40):
+        preds = fn.pred(cur)
+        if not preds:
+            return cur
+        if len(preds) == 1:
+            p = preds[0]
+            t = fn.blocks[p].term
+            if t["k"] == "switch":
+                c = ev.op(t["op"], (p, "term"))
+                if not _is_log_term(c):
+                    return cur
+            cur = p
+            continue
+        d = fn.idom().get(cur)
+        if d is None or d == cur:
+            return cur
+        # is the region between d and cur only logging?
+        region = set()
+        stack = list(preds)
+        ok = True
+        while stack:
+            n = stack.pop()
+            if n == d or n in region:
+                continue
+            if not fn.dominates(d, n):
+                ok = False
+                break
+            region.add(n)
+            stack.extend(fn.pred(n))
+        if not ok:
+            return cur
+        for n in list(region) + [d]:
+            t = fn.blocks[n].term
+            if t["k"] == "switch" and (n != d or True):
+                c = ev.op(t["op"], (n, "term"))
+                if n in region or n == d:
+                    if not _is_log_term(c) and not (n == d and False):
+                        if n == d:
+                            # d itself branches on the program's condition: the arm starts right after it
+                            return cur if not all(_is_log_term(ev.op(fn.blocks[m].term["op"], (m, "term"))) for m in region if fn.blocks[m].term["k"] == "switch") else cur
+                        ok = False
+        if not ok:
+            return cur
+        td = fn.blocks[d].term
+        if td["k"] == "switch" and not _is_log_term(ev.op(td["op"], (d, "term"))):
+            return cur
+        cur = d
+    return cur
